@@ -24,6 +24,8 @@
 //     setlabel|setunit <a> <str>|- ; setorigin <a> <d:hex>|- ; setpoly <a> <n> {<d:hex>} ; wdata <a> <seed> ; frows <d> <n> (modelled)
 //     wrow <d> <row> <seed> ; punit <p> <str>|- ; puncert <p> <d:hex>|- ; setrepo <s> <str>|- ; dimset <a> <i> <seed> ;
 //     forcecreated <o>|F <seconds>
+//   sdata <a> <memtype> <n>                       template DataSet::setData(std::vector<T>(n)): resize to {n}, write  (modelled)
+//   adata <a> <memtype> <axis> <rank> <count..>   DataArray::appendData(memtype, buffer, count, axis)                  (modelled)
 //   flush ; reopen [rw|ro|other]     (C02; `reopen` = `reopen rw`; ro: the session stays read-only until the next reopen;
 //                                     other: a child process opens the file, dumps it, exits; then this process reopens rw)
 // Answer:  OK <value> t=<0|1> h=<digest>   or   ERR <class> t=<0|1> h=<digest>
@@ -1142,6 +1144,37 @@ static std::string do_line(const std::vector<std::string> &t, bool &maybe_delete
         case 'A': h.a.forceCreatedAt(tm); break; case 'D': h.d.forceCreatedAt(tm); break; case 'T': h.t.forceCreatedAt(tm); break;
         case 'M': h.m.forceCreatedAt(tm); break; case 'G': h.g.forceCreatedAt(tm); break; case 'P': h.p.forceCreatedAt(tm); break;
         case 'X': h.x.forceCreatedAt(tm); break; }
+        return "-";
+    }
+    if (c == "sdata") {
+        H &h = recv((int)dec_int(t.at(1)), "A");
+        nix::DataType mt = dec_dtype(t.at(2));
+        size_t n = (size_t)dec_u64(t.at(3));
+        switch (mt) {
+        case nix::DataType::Double: h.a.setData(std::vector<double>(n, 1.5)); break;
+        case nix::DataType::Float: h.a.setData(std::vector<float>(n, 1.5f)); break;
+        case nix::DataType::Int32: h.a.setData(std::vector<int32_t>(n, 3)); break;
+        case nix::DataType::Int64: h.a.setData(std::vector<int64_t>(n, 3)); break;
+        case nix::DataType::UInt8: h.a.setData(std::vector<uint8_t>(n, 3)); break;
+        case nix::DataType::String: h.a.setData(std::vector<std::string>(n, "x")); break;
+        default: throw std::logic_error("sdata: memory type");
+        }
+        return "-";
+    }
+    if (c == "adata") {
+        H &h = recv((int)dec_int(t.at(1)), "A");
+        nix::DataType mt = dec_dtype(t.at(2));
+        size_t axis = (size_t)dec_u64(t.at(3));
+        size_t rank = (size_t)dec_u64(t.at(4));
+        std::vector<nix::ndsize_t> cnt;
+        size_t n = 1;
+        for (size_t i = 0; i < rank; i++) { cnt.push_back(dec_u64(t.at(5 + i))); n *= (size_t)cnt.back(); }
+        nix::NDSize count = rank == 0 ? nix::NDSize() : nix::NDSize(cnt);
+        if (mt == nix::DataType::String) { std::vector<std::string> v(n + 1, "x"); h.a.appendData(mt, v.data(), count, axis); }
+        else if (mt == nix::DataType::Bool) { std::unique_ptr<bool[]> v(new bool[n + 1]); for (size_t i = 0; i <= n; i++) v[i] = true; h.a.appendData(mt, v.get(), count, axis); }
+        else if (mt == nix::DataType::Double) { std::vector<double> v(n + 1, 1.5); h.a.appendData(mt, v.data(), count, axis); }
+        else if (mt == nix::DataType::Int32) { std::vector<int32_t> v(n + 1, 3); h.a.appendData(mt, v.data(), count, axis); }
+        else throw std::logic_error("adata: memory type");
         return "-";
     }
     if (c == "flush") return b01(file.flush());
